@@ -1033,6 +1033,13 @@ _STEER = {
     "helper_specs": ("cumulative", "overlap", "reduction"),
     "CreateOverlappingPartitions": ("overlap", "groupby_transform"),
     "Blockwise": ("elementwise", "broadcast", "filter", "align"),
+    # a family that crashed is reported under its function name
+    "fam_tree": ("reduction", "value_counts", "groupby_agg"),
+    "fam_reduction": ("reduction", "value_counts", "groupby_agg", "nlargest", "unique", "drop_duplicates"),
+    "fam_cum": ("cumulative",),
+    "fam_helpers": ("cumulative", "overlap", "reduction"),
+    "fam_overlap": ("overlap",),
+    "fam_blockwise": ("elementwise", "broadcast", "filter", "align"),
 }
 
 
